@@ -307,7 +307,7 @@ func (env *Env) modLocs(e Expr) ([]modLoc, error) {
 			return nil, fmt.Errorf("modifies: unsupported form")
 		}
 		switch id.Name {
-		case "sent", "recvd", "closed":
+		case "sent", "recvd", "closed", "drained":
 			cv, err := env.eval(x.Args[0])
 			if err != nil {
 				return nil, err
@@ -321,7 +321,7 @@ func (env *Env) modLocs(e Expr) ([]modLoc, error) {
 				return nil, fmt.Errorf("modifies %s needs a channel", id.Name)
 			}
 			sort := SLog
-			if id.Name == "closed" {
+			if id.Name == "closed" || id.Name == "drained" {
 				sort = SBool
 			}
 			return []modLoc{{chanHeap(ct.Elem(), id.Name), ArrSort(sort), LHeap1, ch}}, nil
